@@ -100,10 +100,22 @@ def run_machine(ck, tier, wd, exe, exe_asan):
         passes = [(VERSIONS, "0,1,2", 24, 1, 0)]
     # value sweep: which small values of which generator fields steer the layout of a block (enumerations, flags, "no string")
     discr = os.path.join(wd, "discr.ndjson")
-    rc, out, err = vlib.run_harness(exe, ["c01-probe", discr, "12", "12" if tier == "quick" else "0"], timeout=3000)
-    if rc != 0:
-        raise vlib.InfraError("c01-probe failed: " + err[-500:])
-    ck.cov["value_sweep_settings"] = json.loads(out.strip().splitlines()[-1])["settings"]
+    # (found by the current build and by the pinned reference build /verif/ref: a value whose meaning the current build
+    # changed may look plain to it)
+    found = []
+    for who, pexe in (("cur", exe), ("ref", vlib.build("O1", repo=os.path.join(vlib.ROOT, "ref"), tag="ref-O1"))):
+        part = discr + "." + who
+        rc, out, err = vlib.run_harness(pexe, ["c01-probe", part, "12", "12" if tier == "quick" else "0"], timeout=3000)
+        if rc != 0:
+            raise vlib.InfraError("c01-probe(%s) failed: %s" % (who, err[-500:]))
+        for line in open(part):
+            d = json.loads(line)
+            d.pop("why", None)
+            found.append(json.dumps(d, sort_keys=True))
+    uniq = sorted(set(found))
+    with open(discr, "w") as f:
+        f.write("".join(u + "\n" for u in uniq))
+    ck.cov["value_sweep_settings"] = len(uniq)
     passes.append(([], "2", 0, 1, 0))
     for pi, (vers, modes, maxboost, stride, offset) in enumerate(passes):
         cfg = os.path.join(wd, "mc%d.cfg" % pi)
